@@ -82,6 +82,7 @@ def run_case(case):
     res['steps'] = s.step
     res['fired']['preempted_mid_request'] += overlap[0]
     res['probes']['scheduled'] += 1
+    res['probes']['gran:' + case.get('gran', 'line')] += 1
     res['probes']['plan:' + case['plan']['mode']] += 1
     apps_used = {c['app'] for c in calls}
     res['probes']['threads_on_distinct_apps' if len(apps_used) == n else 'threads_sharing_an_app'] += 1
